@@ -151,3 +151,8 @@ def run(ctx):
     replay_scripts(ctx)
     trs = collect_traces(ctx)
     validate(ctx, trs)
+
+
+def selftest(ctx):
+    from . import selftest as ST
+    return ST.cross(ctx)
